@@ -104,7 +104,7 @@ class _FunctionFreshness:
                     for t in n.targets:
                         if isinstance(t, ast.Name):
                             pairs.append((t.id, c))
-                            if isinstance(n.value, (ast.Dict, ast.List)) or _is_deep_copy(n.value):
+                            if isinstance(n.value, (ast.Dict, ast.List)) or _is_deep_copy(n.value) or self._sub_of_literal_root(n.value):
                                 self.literal_roots.add(t.id)
                             ec = self.classify_elem(n.value) if isinstance(n.value, (ast.ListComp, ast.GeneratorExp, ast.List, ast.Tuple)) else None
                             if ec is not None:
@@ -133,6 +133,22 @@ class _FunctionFreshness:
                         changed = True
             if not changed:
                 break
+
+    def _sub_of_literal_root(self, e: ast.AST) -> bool:
+        """`order = shim.get("order", {})`, `fixed = order["fixed"]`: a sub-object of an object created in this function"""
+        r = e
+        seen_access = False
+        while True:
+            if isinstance(r, ast.Call) and isinstance(r.func, ast.Attribute) and r.func.attr in ("get", "setdefault"):
+                r = r.func.value
+                seen_access = True
+                continue
+            if isinstance(r, ast.Subscript):
+                r = r.value
+                seen_access = True
+                continue
+            break
+        return seen_access and isinstance(r, ast.Name) and r.id in self.literal_roots
 
     @staticmethod
     def _join(a: str, b: str) -> str:
